@@ -10,7 +10,7 @@ import struct
 
 from lib import e2e, udprun
 
-NOFILE = 160
+NOFILE = 360
 
 
 def limit_nofile():
@@ -74,7 +74,8 @@ async def _crowd(ctx, port, tag, n=100):
             break
         ctx.held.append(c)
         if i % 2:
-            await c.sendall(b"\x16\x03\x01\x02\x00\x01\x00\x01\xfc\x03\x03" + ctx.rnd.randbytes(40))
+            # half of a first message: half a TLS record for the server, half a SOCKS5 greeting for the client's local port
+            await c.sendall(b"\x16\x03\x01\x02\x00\x01\x00\x01\xfc\x03\x03" + ctx.rnd.randbytes(40) if tag == "s" else b"\x05")
     await asyncio.sleep(0.3)
 
 
